@@ -900,10 +900,13 @@ def gen_c03(rng, n, tier):
                     g.ops.append(f"block bvm {who} interchain HandleIBTPData ibtp:9999:c5:s1,{local},{idx},{r.choice(['ok', 'ok', 'fail', 'rb'])},0")
                 elif kind == "hub-level":
                     g.ops.append("q dump")
-                    g.ops.append(f"block bvm {who} interchain HandleIBTPData ibtp:9999:c5:s1,1356:1356:x,{r.choice([1, 1, 2])},req,0")
+                    g.ops.append(f"block bvm {who} interchain HandleIBTPData ibtp:{r.choice(['9999:c5:s1', '9999:9999:svc'])},1356:1356:x,{r.choice([1, 1, 2])},req,0")
                 elif kind == "emit":
                     g.ops.append("q dump")
-                    g.ops.append(f"block bvm {who} broker EmitInterchain s:9999:c5:s1 s:1356:1356:x s:a,b,c s:x s:y s:z")
+                    # (a source that is no service of THIS hub: an appchain service over there, a hub-level service over there — `X:X:svc`
+                    # looks like "a service of the hub itself" only as long as nobody asks which hub)
+                    src = r.choice(["9999:c5:s1", "9999:9999:svc", "9999:9999:svc", "7777:7777:svc"])
+                    g.ops.append(f"block bvm {who} broker EmitInterchain s:{src} s:{r.choice(['1356:1356:x', '1356:1356:x', '1356:c1:s1'])} s:a,b,c s:x s:y s:z")
                 else:
                     g.ops.append("q dump")
                     g.ops.append(f"block bvm {who} broker EmitInterchain s:{r.choice(['1356:c1:s1', '1356:1356:0xabc', '9999:c5:s1'])} s:{r.choice(['1356:c2:s1', '9999:c5:s1', '1356:1356:y'])} s:a,b,c s:x s:y s:z")
